@@ -211,6 +211,7 @@ class Repo:
             except SyntaxError as e:
                 self.errors.append('%s: %s' % (rel, e))
         self._fi = {}
+        self.publish_method_names()
 
     # -- lookup -----------------------------------------------------------------------------
     def mod(self, rel):
@@ -237,6 +238,14 @@ class Repo:
         if name not in m.classes:
             raise AnalysisError('anchor-missing class %s' % qual)
         return m.classes[name]
+
+    def publish_method_names(self):
+        from . import effects
+        effects.REPO_METHODS.clear()
+        for rel, m in self.modules.items():
+            for lname in m.funcs:
+                if '.' in lname:
+                    effects.REPO_METHODS.add(lname.rpartition('.')[2])
 
     def all_funcs(self):
         for rel, m in self.modules.items():
